@@ -42,6 +42,12 @@ THEOREMS = [
     "C06.generated_cutShortTip_eq_model", "C06.generated_cutShortTip_removed", "C06.generated_cutShortTip_calls", "C06.generated_tipLeave_node",
     # tree_utils_impl.py::to_subtree_impl over all columns: exact characterisation on every input; = model compaction + takeRows of every column
     "RefineShortTip.toSubtreeImpl_eq", "RefineShortTip.take_inrange", "RefineShortTip.toSubtreeImpl_refines", "C06.generated_toSubtreeImpl_eq_model",
+    # to_subtree / get_subtree_impl / get_subtree / to_sub_tree over all columns (they call the translated to_subtree_impl): factorisation through the
+    # topology-level translations on every input, then = model + takeRows of every column (+ the old→new dictionary), inputs unchanged
+    "RefineShortTip.getSubtreeImplTree_eq", "RefineShortTip.getSubtreeTree_eq", "RefineShortTip.getSubtreeTree_refines",
+    "RefineShortTip.for1T_loop", "RefineShortTip.toSubtreeTree_eq", "RefineShortTip.toSubtreeTree_refines",
+    "RefineShortTip.depFor1_loop", "RefineShortTip.toSubTree_eq", "RefineShortTip.toSubtree_unfold", "RefineShortTip.toSubTree_refines",
+    "C06.generated_toSubtreeTree_eq_model", "C06.generated_getSubtreeTree_eq_model", "C06.generated_toSubTree_eq_model",
 ]
 TRUSTED = ["hand-written models Model/Subtree.lean of to_sub_topology / propagate_removal / get_subtree_impl / to_subtree / cut_tree / CutByType / "
            "CutByFurcationOrder / CutShortTipBranch (tied by the c06.ops correspondence: new parents and new→old mapping compared exactly; all of them are "
@@ -1020,4 +1026,4 @@ TECHNIQUE = ("Lean 4 theorems by structural induction (via C04's loop = recursio
 LEVEL_TEXT = ("Kernel-checked for every tree shape and numbering: the kept rows are exactly the designated nodes, the compaction renumbers them 0..m-1 in order, "
               "every kept non-root row's new parent is the new id of its old parent, the new root has none, the mapping lists the old ids, every column is read "
               "through the mapping. Removal marks reach exactly the descendants of marked nodes.")
-LEVEL_NOTE = "Trusted: Lean kernel; the imperative translator and its semantics library Model/Py.lean for to_sub_topology / get_subtree_impl / propagate_removal (cross-checked by running the generated definitions, ops gsubtopo / gsubtree / gtosub), and for to_subtree / cut_tree with its closures _enter / _leave calling the user's callback / CutByType.__call__ / CutByFurcationOrder._enter (Gen/AlgoCut.lean, proved equal to Sub.toSubtree / cutTreeEnter / cutTreeLeave / cutByType / cutByOrder in Refine/Cut.lean, ops gtosubtree / gcutenter / gcutdepth / gcutleave / gcutleaveset / gcuttype / gcutorder), and for CutShortTipBranch._leave / __call__ with its recording lambda on the callback list (Gen/AlgoShortTip.lean + Model/PyShortTip.lean, proved equal to Sub.cutShortTip with the user callbacks called once per reported branch in Refine/ShortTip.lean, op gcuttip; glue: self.thre / n.distance(child) are parameters, a Tree.Branch is the list of its node handles, integer edge lengths); numpy fancy indexing."
+LEVEL_NOTE = "Trusted: Lean kernel; the imperative translator and its semantics library Model/Py.lean for to_sub_topology / get_subtree_impl / propagate_removal (cross-checked by running the generated definitions, ops gsubtopo / gsubtree / gtosub), and for to_subtree / cut_tree with its closures _enter / _leave calling the user's callback / CutByType.__call__ / CutByFurcationOrder._enter (Gen/AlgoCut.lean, proved equal to Sub.toSubtree / cutTreeEnter / cutTreeLeave / cutByType / cutByOrder in Refine/Cut.lean, ops gtosubtree / gcutenter / gcutdepth / gcutleave / gcutleaveset / gcuttype / gcutorder), and for CutShortTipBranch._leave / __call__ with its recording lambda on the callback list (Gen/AlgoShortTip.lean + Model/PyShortTip.lean, proved equal to Sub.cutShortTip with the user callbacks called once per reported branch in Refine/ShortTip.lean, op gcuttip; glue: self.thre / n.distance(child) are parameters, a Tree.Branch is the list of its node handles, integer edge lengths), and for to_subtree_impl / to_subtree / get_subtree_impl / get_subtree / to_sub_tree over all columns (a tree and the ndata dictionary are their column variables id / pid / type / x, source and names opaque; proved equal to the models + takeRows in Refine/ShortTip.lean, ops gsubimpl / gtosubfull / ggetsubfull / gtosubdep); numpy fancy indexing `col[mapping]` = Py.take."
